@@ -14,6 +14,7 @@
    Positions count the children *visible under the ambient filter F*:
      directly after x / before x with nothing visible in between / after every visible child of p / with exactly i
      visible children of p before it. *)
+From Coq Require Import Permutation.
 From Delb.Base Require Import PyStr.
 From Delb.Tree Require Import ATree ITree AOps AGuard AFlat.
 
@@ -75,6 +76,27 @@ Fixpoint chain_precede (F : filt) (w : world) (x : nid) (srcs : list nsrc) (w' :
   | [] => w' = w
   | s :: r => exists w0 w1 n, offered w w0 x s n /\ moved (pos_precede F w0 x) w0 w1 n /\ chain_precede F w1 n r w'
   end.
+
+(* ---- what merging text nodes must and must not change, stated without the merge function ----
+   `norm` is the content of a tree with the identities of text nodes forgotten and every run of adjacent text
+   nodes read as one string: two trees with the same `norm` have the same element-like nodes with the same identities,
+   payloads, parents and order, and the same text between any two of them.  `merged` says no two adjacent children of
+   any node are text nodes. *)
+Inductive ctree := CText (s : str) | CNode (i : nid) (p : payload) (kids : list ctree).
+Definition cons_c (x : ctree) (l : list ctree) : list ctree :=
+  match x, l with CText a, CText b :: r => CText (a ++ b) :: r | _, _ => x :: l end.
+Fixpoint norm (t : itree) : ctree :=
+  match t with
+  | INode _ (PText s) _ => CText s
+  | INode i p kids => CNode i p (fold_right cons_c [] (map norm kids))
+  end.
+Fixpoint no_adjacent_texts (l : list itree) : bool :=
+  match l with
+  | a :: ((b :: _) as r) => negb (is_itext a && is_itext b) && no_adjacent_texts r
+  | _ => true
+  end.
+Fixpoint merged (t : itree) : bool :=
+  match t with INode _ _ kids => no_adjacent_texts kids && forallb merged kids end.
 
 Definition nth_visible (F : filt) (w : world) (p : nid) (i : nat) : option nid :=
   nth_error (filter (vis_id F w) (kids_of w p)) i.
@@ -140,6 +162,11 @@ Definition edit_ok (F : filt) (w : world) (o : op) (w' : world) : Prop :=
         (forall q, node_of w' q = if N.eqb x q then Some (PText s, ks) else node_of w q) /\
         loose_ids w' = loose_ids w /\ same_docs w w'
   | OMerge p =>
-      (* merging has no position to compute: the subtree below p with every run of adjacent text nodes merged *)
-      w' = match w_rw (at_tag p merge_tree) w with Some (w1, _) => w1 | None => w end
+      (* the flat view changes only inside the subtree s at p; the new subtree s' has the same normal form (same
+         element-like nodes, same text between them), no adjacent text nodes, and no identity that s did not have *)
+      w' = w \/
+      exists pre post s s', iid s = p /\ wflat w = pre ++ flat s ++ post /\ wflat w' = pre ++ flat s' ++ post /\
+        norm s' = norm s /\ merged s' = true /\ (exists out, Permutation (ids s' ++ out) (ids s)) /\
+        loose_ids w' = loose_ids w /\ same_docs w w'
   end.
+
